@@ -59,11 +59,15 @@ func TestC11_NoOrphans(t *testing.T) {
 		h := txh.GenHistory(t, seqGen)
 		e, _ := runSequential(t, h, func(e *txh.Env, i int, models []*txh.Model, res txh.TxnResult) {
 			r := txh.ReadDisk(e.Dir)
-			if ov := r.OrphanValues(); len(ov) > 0 {
+			if ov := r.OrphanValuesOf(true); len(ov) > 0 {
+				t.Fatalf("after txn %d (%s): %s\n%s", i+1, h.Txns[i], strings.Join(ov, "; "), h.Render())
+			}
+			if ov := r.OrphanValuesOf(false); len(ov) > 0 {
+				// the recorded finding: separate-segment stores that are not actively persisted
 				if !knownOrphanValues {
 					t.Fatalf("after txn %d (%s): %s\n%s", i+1, h.Txns[i], strings.Join(ov, "; "), h.Render())
 				}
-				rec.Exclude("unreferenced value blob of an out-of-node store (known finding)")
+				rec.Exclude("unreferenced value blob of a separate-segment (not actively persisted) store (known finding)")
 			}
 			if o := r.Orphans(); len(o) > 0 {
 				if len(o) > 6 {
